@@ -72,6 +72,21 @@ CLAIMED = {
         technique="exceptional-path symbolic execution with effect traces (acquire/release obligations per path), "
                   "SMT strings for the path clause, native fault-injection replay",
         design_ref="§2 C16"),
+    "C08": dict(
+        level="proof",
+        text="The time macros of time_operators.sql (timeshift, period start/end, getmonth/dayofmonth/dayofyear, "
+             "time_agg on dates and periods, datediff, dateadd, daytoyear/daytomonth) are parsed from the working tree "
+             "and evaluated symbolically; each is proved equal to the calendar specification (closed-form Gregorian / "
+             "ISO-8601 calendar, cross-checked against datetime) for all years 1000..9998, all period numbers the "
+             "calendar has (incl. week 53 / day 366 exactly where they exist) and all shifts. Round trip, successor "
+             "and injectivity of timeshift follow from 'shift = translation in calendar order'.",
+        note="DuckDB semantics model (vc.sqlvc) is validated against the real DuckDB on a grid every run, not proved; "
+             "the civil-date round-trip lemma is validated by exhaustive enumeration; INTEGER overflow not modelled; "
+             "dataset-level operators (fill_time_series, flow_to_stock, stock_to_flow, Date timeshift) and the "
+             "Python twins in TimeHandling.py are not covered.",
+        technique="SQL macro -> SMT (sqlglot AST, 3VL, char-vector strings, closed-form calendar) per-path VCs "
+                  "discharged by z3/cvc5; model conformance against real DuckDB; replay in real DuckDB",
+        design_ref="§2 C08"),
 }
 
 NOT_YET = "not built yet in this round; planned per DESIGN.md §2 (no claim until its check exists and is sound)"
